@@ -63,7 +63,7 @@ def writer_cases(ctx, n):
             "extra": k % 40,                      # sweeps every header length modulo 32 cards
             "override": bool(rng.integers(3) == 0), "template": bool(rng.integers(2)),
             "directio": [None, 0, 1, "1", 1][int(rng.integers(5))], "pkt0": [0, 0, 4096][int(rng.integers(3))],
-            "seed": int(rng.integers(1 << 30)), "overlap": bool(rng.integers(2)),
+            "seed": int(rng.integers(1 << 30)), "overlap": bool(rng.integers(2)), "prerecord": bool(rng.integers(3) == 0),
         })
     return cases
 
